@@ -123,7 +123,7 @@ def run_uncapped(p):
 
 def to_tree_fragment(prog):
     """project a generated program onto the fragment of the tree theorems (Djc/Proofs/Tree.lean, Stitch.lean): component
-    tags with empty bodies (so every slot is unfilled), no dynamic component, no slot flagged `default`, providers replaced by their bodies"""
+    tag bodies empty or made of `{% fill "name" %}` tags, no dynamic component, no slot flagged `default`, no slot-default alias, providers replaced by their bodies"""
     def flat(nodes):
         out = []
         for nd in nodes:
@@ -132,13 +132,15 @@ def to_tree_fragment(prog):
                 if k in nd:
                     nd[k] = flat(nd[k])
             if nd["t"] == "comp":
-                out.append(dict(nd, body=[], dyn=False))
+                # bodies of the fragment: `{% fill "literal" [data=…] %}` tags at the top level, no default alias
+                keep = [dict(f, dflt=None) for f in nd["body"] if f["t"] == "fill" and "lit" in f["name"]]
+                out.append(dict(nd, body=keep, dyn=False))
             elif nd["t"] == "slot":
                 out.append(dict(nd, default=False))       # unfilled slots are inside the fragment (not flagged `default`)
             elif nd["t"] == "provide":
                 out += nd["body"]
             elif nd["t"] == "fill":
-                continue
+                out.append(nd)                           # (only reached below a component tag; filtered there)
             else:
                 out.append(nd)
         return out
@@ -151,7 +153,7 @@ def run_trees(chk, n):
     components calling each other through their templates, loops around tags): real = model = reading on the output,
     registries empty afterwards, and the model-free reading of the page (distinct ids, no placeholder, an element carries
     id X iff it is a root of instance X's segment)"""
-    prof = dict(PROFILE, ncomp=(4, 7), depth=3, w_comp=9, w_for=2.5, w_elem=5, w_slot=2.5, w_provide=0, w_inject=0, p_side=0.0,
+    prof = dict(PROFILE, ncomp=(4, 7), depth=3, w_comp=9, w_for=2.5, w_elem=5, w_slot=3.5, p_named_fill=0.9, p_fill_in_ctl=0.0, p_default_alias=0.0, p_slot_in_fill=0.3, w_provide=0, w_inject=0, p_side=0.0,
                 p_is_filled=0.0, p_only=0.15, p_required=0.05)
     progs = []
     for i in range(n):
